@@ -656,6 +656,13 @@ impl Ctx {
         for (k, v) in &self.stats.extra {
             coverage.insert(k.clone(), v.clone());
         }
+        if let Ok(p) = std::env::var("VERIF_FUZZ_STATS") {
+            if let Ok(txt) = std::fs::read_to_string(&p) {
+                if let Ok(v) = serde_json::from_str::<Value>(&txt) {
+                    coverage.insert("fuzz_campaign".into(), v);
+                }
+            }
+        }
         coverage.insert("threads".into(), self.threads.into());
         coverage.insert(
             "known_finding_lines".into(),
